@@ -11,12 +11,17 @@ def ops10 : List (String × Handler) := [
     let obj ← tok
     let n ← nat; let a ← mat; let base ← vec; let nu ← vec; let b ← mat
     let d1 ← rat; let dr ← rat; let w0 ← rat; let w1 ← rat
-    let lbx ← vec; let ubx ← ubvec; let smax ← rat; let lam ← vec; let z ← vec
+    let lbx ← vec; let ubx ← ubvec
+    -- <smax>: a rational (certificate over pairs with both scales <= smax) or `inf` (all feasible pairs)
+    let smaxTok ← tok
+    let smax : Option Rat ← (if smaxTok == "inf" then pure none else match parseRat smaxTok with
+      | .ok r => pure (some r) | .error e => throw e)
+    let lam ← vec; let z ← vec
     let size := b.length
     let (g, h) := adaptiveRows n a base nu b d1 dr
     let lb := (List.replicate size lbx).flatten ++ [0, 0]
-    -- the certificate ranges over all feasible pairs whose scales do not exceed `smax`
-    let ub := (List.replicate size ubx).flatten ++ [some smax, some smax]
+    -- the certificate ranges over all feasible pairs whose scales do not exceed `smax` (no restriction for `inf`)
+    let ub := (List.replicate size ubx).flatten ++ [smax, smax]
     let dim := size * n + 2
     let viol := (vsub (matVec g z) h).foldl (fun m t => if m ≤ t then t else m) 0
     let tail := s!"{showBool (inBox lb ub z)} {showRat viol}"
